@@ -790,6 +790,26 @@ def matrix2_cases(g):
         g.add_raw(t, "CREATE_COIN", [r.choice(g.phs), canon(7), memo])
         n += 1
         emit(spends, [("CREATE_COIN", "memo-shape:%d" % n)], n & 1)
+    # duplicate outputs: the same (puzzle hash, amount) created twice in one spend, every combination of hints and both orders
+    # (a duplicate is a duplicate whatever the memos say); and the same output from two different spends (allowed)
+    h1, h2 = r.bytes(32), r.bytes(32)
+    hint_forms = [None, to_list([h1]), to_list([h2]), to_list([h1, b"memo"]), to_list([b""]), to_list([r.bytes(31)]), b"\x01"]
+    for i, ha in enumerate(hint_forms):
+        for j, hb in enumerate(hint_forms):
+            spends, t = fresh(False)
+            dph = r.choice(g.phs)
+            g.add_raw(t, "CREATE_COIN", [dph, canon(3)] + ([ha] if ha is not None else []))
+            g.add_raw(t, "CREATE_COIN", [dph, canon(3)] + ([hb] if hb is not None else []))
+            n += 1
+            emit(spends, [("CREATE_COIN", "dup:%d:%d" % (i, j))], n & 1)
+    for same_amount in (True, False):
+        a1 = g.new_spend(parent=r.bytes(32), amount=1000); a1["budget"] = []
+        a2 = g.new_spend(parent=r.bytes(32), amount=2000); a2["budget"] = []
+        dph = r.choice(g.phs)
+        g.add_raw(a1, "CREATE_COIN", [dph, canon(3), to_list([h1])])
+        g.add_raw(a2, "CREATE_COIN", [dph, canon(3 if same_amount else 4), to_list([h2])])
+        n += 1
+        emit([a1, a2], [("CREATE_COIN", "dup-across-spends:%d" % same_amount)], n & 1)
     # all 64 message modes, sender and receiver being two different spends, matching and one-bit-off
     for mode in range(64):
         for ok in (True, False):
